@@ -197,6 +197,47 @@ theorem accepted_handlers_close_before_owner_leaves (g : Graph) (hw : wf g = tru
   accepted_closed_when_owner_leaves ((wf_iff g).mp hw)
     (inv_reachable ((wf_iff g).mp hw) (LTS.run_reachable (sys g) sched)) hy hh hna hacc
 
+/-- How a body ENDS decides which handler runs.  A task closes without error (`done t true`: for the
+body of a try block that selects the SUCCESS handler) only if every command of its script completed,
+or a command that stops the scope (`Cmd.stop`: `Scope.Stop()`, done WITHOUT an error) had been entered
+and every command that was entered completed — a clean stop is no failure, the rest of the script may
+be skipped.  And a task in which some command FAILED — returned an error, unknown command name,
+unreadable (truncated) text: `ret t j false` — never closes without error, and (`fail_iff_body_err`)
+the fail handler is what runs. -/
+theorem body_ok_iff_completed_or_stopped (g : Graph) (hw : wf g = true) (sched : List Label) (pre post : List Ev)
+    (t : Nat) :
+    ((run g sched).tr = pre ++ Ev.done t true :: post →
+      (∀ i, i < (g.body t).length → cmdDoneOk g pre t i) ∨
+      ((∃ i, i < (g.body t).length ∧ g.cmdAt t i = some .stop ∧ Ev.cmd t i ∈ pre) ∧
+        ∀ i, i < (g.body t).length → Ev.cmd t i ∈ pre → cmdDoneOk g pre t i)) ∧
+    (∀ j, Ev.ret t j false ∈ (run g sched).tr → Ev.done t true ∉ (run g sched).tr) := by
+  have htr := run_traceOk ((wf_iff g).mp hw) sched
+  refine ⟨fun hs => ?_, fun j hf => no_done_true_after_failure htr hf⟩
+  have := (htr pre _ post hs).2.2
+  simp only [if_true] at this
+  rcases this.2 with h | ⟨⟨_, i, hi, hc, hm⟩, h⟩
+  · exact Or.inl (fun i hi => h i (List.mem_range.mpr hi))
+  · exact Or.inr ⟨⟨i, List.mem_range.mp hi, hc, hm⟩, fun i hi => h i (List.mem_range.mpr hi)⟩
+
+/-- the stop in action: the body (task 1: `p, stop, p`) of `gStop` closes without error after its second
+command, its third command is never entered, the success handler (3) runs, the fail handler (2) does
+not, the owner and the root report no error -/
+example :
+    Ev.done 1 true ∈ (run gStop schedStop).tr ∧ Ev.cmd 1 1 ∈ (run gStop schedStop).tr ∧
+    Ev.cmd 1 2 ∉ (run gStop schedStop).tr ∧ Ev.cmd 3 0 ∈ (run gStop schedStop).tr ∧
+    Ev.cmd 2 0 ∉ (run gStop schedStop).tr ∧ Ev.done 0 true ∈ (run gStop schedStop).tr ∧
+    Ev.root true ∈ (run gStop schedStop).tr ∧ gStop.cmdAt 1 1 = some .stop ∧ gStop.role 3 = .hsucc 0 := by
+  rw [gStop_trace]; decide
+
+/-- the monitor rejects a stopped body that is treated as failed (nothing failed in its context) … -/
+example : accepts gStop [.sub 0, .acc 0, .cmd 0 0, .ret 0 0 true, .cmd 0 1, .ret 0 1 true, .cmd 1 0, .ret 1 0 true,
+    .cmd 1 1, .ret 1 1 true, .done 1 false] = false := by decide
+
+/-- … and a body that closes ok although one of its commands failed (e.g. a truncated last command that
+is taken for a clean end of input) -/
+example : accepts gEx16 [.sub 0, .acc 0, .cmd 0 0, .ret 0 0 true, .cmd 0 1, .ret 0 1 true, .cmd 1 0,
+    .ret 1 0 true, .cmd 1 1, .ret 1 1 false, .done 1 true] = false := by decide
+
 /-! ### The timed excuse -/
 
 /-- Handlers are SUBMITTED only after the body has closed with the matching outcome: the acceptance
